@@ -1,5 +1,6 @@
 #!/usr/bin/env python3
-"""Regenerate lean/FancyModel/Generated.lean from /repo's *current* source text (DESIGN.md §4.4).
+"""Regenerate lean/FancyModel/Generated.lean (and, through tools/rs2lean_analyze.py, GeneratedAnalyze.lean) from /repo's
+*current* source text (DESIGN.md §4.4).
 Tables and constants that theorems mention by name are re-read on every run; a shape the extractor
 does not find is an error (reported as a broken tie), never silently skipped."""
 import os, re, sys
@@ -189,6 +190,14 @@ def main():
     if old != text:
         open(OUT, 'w').write(text)
     print('extract.py: ok (%d special characters)' % len(special))
+    # the analyzer, translated statement by statement: src/analyze.rs -> GeneratedAnalyze.lean (proved equal to the
+    # hand-written model in Proofs/C13c.lean). A construct outside the translator's subset is a broken tie.
+    import subprocess
+    r = subprocess.run([sys.executable, os.path.join(os.path.dirname(os.path.abspath(__file__)), 'rs2lean_analyze.py')],
+                       stdout=subprocess.PIPE, stderr=subprocess.STDOUT, text=True)
+    print(r.stdout.strip())
+    if r.returncode != 0:
+        fail('rs2lean_analyze.py failed (exit %d): src/analyze.rs is not translated' % r.returncode)
 
 
 if __name__ == '__main__':
